@@ -188,6 +188,8 @@ class Ctx:
         self.roots = roots
         self.files = files
         self.generators = {}  # type: typing.Dict[str, typing.Any]
+        self.gen_out = {}  # type: typing.Dict[str, str]
+        self.gen_calls = {}  # type: typing.Dict[str, int]
         self.contexts = {}  # type: typing.Dict[str, typing.Any]
 
 
@@ -236,6 +238,8 @@ def api_generate(cx: Ctx, op: dict, out_dir: str) -> typing.Dict[str, str]:
             kw["lstrip_blocks"] = True
         gen, sgen = create_default_generators(ns, **kw)
         cx.generators[gkey] = (ns, gen, sgen)
+        cx.gen_out[gkey] = out_dir
+    cx.gen_calls[gkey] = cx.gen_calls.get(gkey, 0) + 1
     _ORDER["seed"] = op.get("order_seed")
     try:
         sgen.generate_all(False, True, bool(op.get("omit_ser")), bool(op.get("audit")))
@@ -584,10 +588,13 @@ def run_case(case: dict, ctx: dict) -> dict:
         out_dir = os.path.join(sandbox, "out", "%d" % i)
         if op.get("reuse"):
             gkey = repr(sorted((k, str(v)) for k, v in op.items() if k not in ("reuse", "abort_at", "abort_style", "abort_file", "abort_write", "order_seed", "omit_ser", "audit")))
-            prev = [j for j in range(i) if repr(sorted((k, str(v)) for k, v in ops[j].items() if k not in ("reuse", "abort_at", "abort_style", "abort_file", "abort_write", "order_seed", "omit_ser", "audit"))) == gkey and ops[j].get("entry", "api") == "api"]
-            if prev and op.get("entry", "api") == "api":
-                out_dir = os.path.join(sandbox, "out", "%d" % prev[-1])
+            # (the object writes where its namespace tree was built for: the directory of the invocation that CREATED it,
+            # however many calls were made on it since)
+            if gkey in cx.generators and op.get("entry", "api") == "api":
+                out_dir = cx.gen_out[gkey]
                 bump("probes", "generator_object_reused")
+                if cx.gen_calls.get(gkey, 0) >= 2:
+                    bump("probes", "generator_object_used_a_third_time")
         seams.fault = None
         seams.fault_fired = None
         seams.mut_count = 0
@@ -654,6 +661,13 @@ def run_case(case: dict, ctx: dict) -> dict:
         seen_here = set()  # type: typing.Set[str]
         for rel, want in sorted(ref.items()):
             if rel not in tree:
+                if op.get("subset") is None and not op.get("templates"):
+                    # the whole namespace was asked for: a type without a file means that what is generated depends on what this
+                    # interpreter (or this generator object) did before
+                    sig = "%s:type-file-missing-although-whole-namespace-generated:%s" % (PROP, op["lang"])
+                    if sig not in seen_here:
+                        seen_here.add(sig)
+                        violations.append({"signature": sig, "detail": {"op_index": i, "op": op, "path": rel, "history": trace[:]}})
                 continue  # not in this subset
             compared += 1
             if tree[rel] != want:
